@@ -48,9 +48,14 @@ def hash_u64(x):
 # ------------------------------------------------------------------------------------------------ generators
 def gen_hm(rng, size):
     kind = rng.weighted([("u32", 4), ("u64", 2), ("str", 2), ("ptr", 3)])
-    lru = rng.weighted([(-1, 5), (0, 1), (1, 1), (2, 2), (3, 2), (5, 1), (8, 1), (70, 1), (130, 1)])
+    # ramp scripts cross the bucket-count thresholds (64 -> 128 -> 256 and back) with observations at the borders
+    ramp = rng.weighted([(0, 5), (66, 2), (72, 1), (130, 2), (140, 1), (260, 1)])
+    if ramp:
+        lru = rng.choice([-1, -1, ramp + 5, 70, 130, 300])
+    else:
+        lru = rng.weighted([(-1, 4), (0, 1), (1, 1), (2, 2), (3, 2), (5, 1), (8, 1), (70, 1), (130, 1)])
     # key universe with bucket collisions (mask 63 / 127) and, for ptr, equal full hashes
-    npool = rng.weighted([(6, 2), (20, 3), (90, 2), (200, 2), (300, 1)])
+    npool = ramp + 20 if ramp else rng.weighted([(6, 2), (20, 3), (90, 2), (200, 2), (300, 1)])
     keys = []
     if kind in ("u32", "u64"):
         hf = hash_u32 if kind == "u32" else hash_u64
@@ -87,7 +92,17 @@ def gen_hm(rng, size):
         vid[0] += 1
         return 0 if rng.chance(1, 40) else vid[0]
     live = []   # generator's own rough idea of present keys, only to aim the choices
-    n = size
+    borders = (62, 63, 64, 65, 66, 67, 126, 127, 128, 129, 130, 254, 255, 256, 257, 31, 32, 33)
+    if ramp:
+        for k in keys[:ramp]:
+            lines.append("hm put %s %d" % (k, val()))
+            live.append(k)
+            if len(live) in borders:
+                lines.append("hm shape")
+                if rng.chance(1, 3):
+                    lines.append("hm iter")
+        lines += ["hm shape", "hm lru"]
+    n = size if not ramp else size // 3
     phase = "grow"
     for i in range(n):
         if i == n // 2 and rng.chance(1, 2):
@@ -98,6 +113,8 @@ def gen_hm(rng, size):
              "shrink": [("put", 10), ("get", 10), ("rm", 60), ("ren", 8), ("clear", 1), ("obs", 6)],
              "mixed": [("put", 30), ("get", 15), ("rm", 25), ("ren", 12), ("clear", 2), ("obs", 8)]}[phase]
         op = rng.weighted(w)
+        if ramp and op == "clear" and rng.chance(3, 4):
+            op = "get"
         k = rng.choice(live) if live and rng.chance(1, 2) else rng.choice(keys)
         if op == "put":
             lines.append("hm put %s %d" % (k, val()))
@@ -121,8 +138,21 @@ def gen_hm(rng, size):
             live = []
         else:
             lines.append("hm " + rng.choice(["iter", "lru", "shape", "count", "lru"]))
+    if ramp and rng.chance(4, 5):
+        # ramp down through the shrink thresholds (count < mask / 2), oldest or newest first
+        order = list(live)
+        if rng.chance(1, 2):
+            order.reverse()
+        for k in order:
+            lines.append("hm rm %s" % k)
+            live.remove(k)
+            if len(live) in borders or len(live) % 16 == 0:
+                lines.append("hm shape")
+        if rng.chance(1, 2):
+            for k in keys[:rng.range(3, 70)]:
+                lines.append("hm put %s %d" % (k, val()))
     lines += ["hm iter", "hm lru", "hm shape", "hm destroy"]
-    return {"c": "hm", "lines": lines, "tag": "hm-%s-lru%s-%s" % (kind, "off" if lru < 0 else "on", "big" if npool > 64 else "small")}
+    return {"c": "hm", "lines": lines, "tag": "hm-%s-lru%s-%s" % (kind, "off" if lru < 0 else "on", ("ramp%d" % ramp) if ramp else ("big" if npool > 64 else "small"))}
 
 
 def gen_ul(rng, size):
@@ -207,6 +237,21 @@ def gen_pl(rng, size):
             lines.append(rng.choice(["pl at %d" % rng.range(0, n + 1), "pl clone", "pl sort", "pl dump", "pl clone"]))
     lines += ["pl clone", "pl dump", "pl destroy"]
     return {"c": "pl", "lines": lines, "tag": "pl"}
+
+
+def gen_pl_long(rng, size):
+    # iwlist_shift compacts only when start reaches a multiple of 256 with start > num / 2
+    n = rng.choice([300, 520, 700])
+    lines = ["pl new %d" % rng.choice([0, 33])]
+    for i in range(n):
+        lines.append("pl push %02x" % (1 + i % 250))
+    k = rng.choice([256, 257, n - 20]) if n >= 520 else 257
+    for i in range(min(k, n)):
+        lines.append("pl shift")
+    for i in range(20):
+        lines.append(rng.choice(["pl push 4142", "pl unshift 43", "pl shift", "pl pop", "pl at 0", "pl insert 1 44", "pl rm 0"]))
+    lines += ["pl clone", "pl destroy"]
+    return {"c": "pl", "lines": lines, "tag": "pl-long"}
 
 
 def gen_sa(rng, size):
@@ -959,7 +1004,10 @@ def evaluate(run, scripts, impl, asan, model, record=True):
     by_c = {}
     for s in scripts:
         by_c.setdefault(s["c"], []).append(s)
-    groups = sorted(by_c.items())
+    groups = []
+    for c, ss in sorted(by_c.items()):
+        for i in range(0, len(ss), 24):
+            groups.append((c, ss[i:i + 24]))
     env_asan = dict(os.environ, ASAN_OPTIONS="detect_leaks=1:abort_on_error=0:exitcode=23:allocator_may_return_null=1",
                     UBSAN_OPTIONS="print_stacktrace=0")
     jobs = []
@@ -969,6 +1017,7 @@ def evaluate(run, scripts, impl, asan, model, record=True):
                          ex.submit(run_scripts, model, ss) if c in MODELLED else None))
         results = [(c, ss, a.result(), b.result(), m.result() if m else None) for c, ss, a, b, m in jobs]
     validated = 0
+    seen_c = set()
     for c, ss, (outs, crashes), (aouts, acrashes), mres in results:
         for (si, li, err) in crashes:
             if si < 0:
@@ -993,7 +1042,9 @@ def evaluate(run, scripts, impl, asan, model, record=True):
                 continue
             if record:
                 run.case(json.dumps(s["lines"]), nontrivial=True,
-                         sample=({"container": c, "script_head": s["lines"][:6], "impl_head": o[:6]} if si == 0 else None))
+                         sample=({"container": c, "script_head": s["lines"][:6], "impl_head": o[:6]}
+                                 if si == 0 and s["tag"] != "corpus" and c not in seen_c else None))
+                seen_c.add(c)
                 run.dist(s["tag"])
                 run.dist("ops-" + c, len(s["lines"]))
             bad = ORACLES[c](s["lines"], o)
@@ -1040,15 +1091,17 @@ def check(run):
     quick = run.tier == "quick"
     mult = 1 if proofs_ok else 10
     # scripts per container and operations per script
-    plan = {"hm": (40, 300), "ul": (30, 180), "pl": (20, 140), "sa": (20, 120), "rb": (24, 80), "xs": (24, 90),
-            "av": (20, 180), "po": (20, 60)}
+    plan = {"hm": (70, 300), "ul": (50, 180), "pl": (30, 140), "sa": (30, 120), "rb": (30, 80), "xs": (40, 90),
+            "av": (30, 180), "po": (30, 60)}
     if not quick:
-        plan = {c: (n * 12, sz * 2) for c, (n, sz) in plan.items()}
+        plan = {c: (n * 40, sz * 2) for c, (n, sz) in plan.items()}
     scripts = load_corpus()
     for c in sorted(plan):
         n, sz = plan[c]
         for _ in range(n):
             scripts.append(GENS[c](rng.fork(), rng.range(max(10, sz // 4), sz)))
+    for _ in range(1 if quick else 12):
+        scripts.append(gen_pl_long(rng.fork(), 0))
     nviol = evaluate(run, scripts, impl, asan, model)
     if run.broken and not nviol:
         # proofs or correspondence broken: widen the search for a failing input
